@@ -2,7 +2,7 @@
    Directives: ExtrOcamlBasic only (bool, option, unit, list, prod, sumbool, comparison
    mapped to the OCaml types of the same meaning).  N, positive, nat and Byte.byte stay the
    extracted inductive types; there is no Extract Constant and no further Extract Inductive. *)
-From Ztyp Require Import Base Bitlen Bitfields Tree Merkleize Types Spec Reader View Mut Heap Iter Codec Conv.
+From Ztyp Require Import Base Bitlen Bitfields Tree Merkleize Types Spec Reader View Mut Heap Iter Codec Conv VMach IO Alloc.
 Require Extraction.
 Require ExtrOcamlBasic.
 Extraction Language OCaml.
@@ -27,4 +27,6 @@ Extraction "model.ml"
   print_dec parse_uint uint_unmarshal_json uint_unmarshal_text uint_unmarshal_json_cast
   uint_marshal_text uint_marshal_json u256_unmarshal_text u256_unmarshal_json
   bytes_marshal_text fixed_bytes_unmarshal big_unmarshal
+  v_step v_init v_len h_alloc zero_addr
+  run_reads ew_write_all one_shot view_deserialize_a foot perbyte
   heap_init h_getter h_setter h_merkle h_abs hm_step hm_alloc h_cell.
